@@ -22,7 +22,14 @@ else RES_WITHOUT="compile-error"; fi
 git -C /repo worktree remove --force $WT
 echo "demo with patch: exit=$RES_WITH ; without: exit=$RES_WITHOUT"
 RUNNER=${SEED_RUNNER:-/tmp/jc-verify-run.sh}
-SUITE=$($RUNNER $SD/patch.diff 2>&1 | grep RESULT | head -1)
+# the runner records every result with the hash of the patch it ran; an identical patch that the runner has already taken through the
+# whole suite (when the seeding agent called it) is not run a second time
+H=$(sha256sum $SD/patch.diff | cut -c1-16)
+if grep -q "^$H .* PASS " /tmp/jc-verify-results.log 2>/dev/null; then
+  SUITE="RESULT: PASS (existing test suite passes with the patch) [runner log: $(grep "^$H .* PASS " /tmp/jc-verify-results.log | head -1 | cut -d' ' -f1-3)]"
+else
+  SUITE=$($RUNNER $SD/patch.diff 2>&1 | grep RESULT | head -1)
+fi
 echo "suite: $SUITE"
 # run the check against a scratch copy of /repo/include with the patch applied (equivalent to git -C /repo apply; run;
 # git -C /repo checkout -- . ; the copy keeps /repo untouched while other work reads it)
